@@ -50,6 +50,10 @@ def kwargs_param(kind, positional, in_memory):
             path.ghost["prior_samples"] = ps
             d = d.set("prior_samples_file", ps).set("pool", Opaque("pool"))
         d = d.set("rng", Opaque("rng"))
+        # an option of the wrapped helper that merely passes through the decorator (any value)
+        npri = z3.Int("n_prior_samples")
+        path.assume(npri >= 1)
+        d = d.set("n_prior_samples", npri)
         if in_memory is not None:
             d = d.set("in_memory", in_memory)
         return d
@@ -112,7 +116,22 @@ def _called(ex, path, args, kwargs, node, fn):
     return src is not None and src[1] == "name"
 
 
-LIB = {"tempfile_created": _created, "tempfile_unlinked_once": _unlinked, "no_swallowed_failure": _no_swallow,
+@model("cache_written_from_object", doc="spec: when the samples were handed over as an object (and not in_memory), exactly one write was made, on THAT object "
+                                        "(not on a slice or a copy of it), into the temporary file that the wrapped function is then given")
+def _written(ex, path, args, kwargs, node, fn):
+    ps = path.ghost.get("prior_samples")
+    calls = [e for e in _events(path) if e["name"] == "func" and not e.get("attempted")]
+    if getattr(ps, "kind", None) != "JokerSamples" or not calls or any(k == "in_memory" and val is True for k, val in calls[0]["kwargs"].items()):
+        return True
+    writes = [e for e in _events(path) if e["name"].split(".")[-1] == "write" and not e.get("attempted")]
+    if len(writes) != 1 or writes[0].get("recv") is not ps:
+        return False
+    a = writes[0]["args"][0] if writes[0]["args"] else None
+    src = getattr(a, "attr_of", None)
+    return src is not None and src[1] == "name"
+
+
+LIB = {"cache_written_from_object": _written, "tempfile_created": _created, "tempfile_unlinked_once": _unlinked, "no_swallowed_failure": _no_swallow,
        "user_file_untouched": _user_untouched, "wrapped_called_with_own_file": _called}
 LIB = filemodel.install_repo_models(LIB)
 LIB.update(W.LIB)
@@ -127,7 +146,8 @@ for kind in ("str", "JokerSamples", "other"):
                          ensures={"temp-file-removed-on-normal-exit": "implies(tempfile_created(), tempfile_unlinked_once())",
                                   "a-failure-never-ends-in-a-normal-return": "no_swallowed_failure()",
                                   "user-file-never-written-or-removed": "user_file_untouched()",
-                                  "wrapped-function-gets-the-right-file": "wrapped_called_with_own_file()"},
+                                  "wrapped-function-gets-the-right-file": "wrapped_called_with_own_file()",
+                                  "cache-file-written-from-the-object-itself": "cache_written_from_object()"},
                          exc_ensures={"temp-file-removed-on-every-failing-exit": "implies(tempfile_created(), tempfile_unlinked_once())",
                                       "user-file-never-written-or-removed": "user_file_untouched()"})
             c.cfg_mode = True
